@@ -2,6 +2,8 @@ package drive
 
 import (
 	"bytes"
+	"encoding/json"
+	"reflect"
 	"encoding/binary"
 	"encoding/hex"
 	"errors"
@@ -73,6 +75,7 @@ type RProg struct {
 	Seed   uint64   `json:"seed"`
 	Tail   int      `json:"tail"` // extra NextReader calls at the end
 	Raw    string   `json:"raw"`  // hex: raw bytes sent verbatim instead of frames (C07 garbage)
+	JSON   bool     `json:"json"` // data messages carry JSON documents (ReadJSON programs)
 }
 
 // Ev is a generic trace event.
@@ -264,6 +267,9 @@ func (r *readerRun) concretise() []byte {
 			r.cf[i].payload = wire.CloseBody(f.Code, reason)
 		case f.Comp != "" && (f.Op == 1 || f.Op == 2):
 			plain := wire.TextPay(p.Seed, i, f.Plain)
+			if p.JSON {
+				plain = wire.JSONDoc(p.Seed, i, f.Plain)
+			}
 			comp, err := wire.DeflateMsg(plain, f.Comp)
 			if err != nil {
 				panic(err)
@@ -337,6 +343,29 @@ func (r *readerRun) concretise() []byte {
 			}
 			if e == nil {
 				e = []byte{}
+			}
+			if p.JSON && f.Lk == "n" && f.Short == 0 {
+				// JSON flavour: replace the content of the message by a document of the same length,
+				// spread over the same frames
+				doc := wire.JSONDoc(p.Seed, i, len(e))
+				rest := doc
+				for j := i; j < len(r.cf) && len(rest) > 0; j++ {
+					if j > i && r.cf[j].Op != 0 {
+						if r.cf[j].Op == 1 || r.cf[j].Op == 2 {
+							break
+						}
+						continue
+					}
+					n := len(r.cf[j].payload)
+					if n > len(rest) {
+						n = len(rest)
+					}
+					r.cf[j].payload = append([]byte{}, rest[:n]...)
+					rest = rest[n:]
+				}
+				if len(rest) == 0 {
+					e = doc
+				}
 			}
 			r.expect[i+1] = e
 		}
@@ -579,7 +608,8 @@ func (r *readerRun) run(stream []byte) (evs []Ev) {
 		}
 		frs[i] = Ev{"op": f.Op, "fin": f.Fin, "r1": f.R1, "r2": f.R2, "r3": f.R3, "mk": f.Mk,
 			"len": f.Len, "lk": f.Lk, "min": !f.NonMin, "code": code, "utf8": u8,
-			"arr": arr, "h2": h2, "hdrOK": hdrOK, "pgot": pgot, "plain": f.Plain, "comp": f.Comp != ""}
+			"arr": arr, "h2": h2, "hdrOK": hdrOK, "pgot": pgot, "plain": f.Plain, "comp": f.Comp != "",
+			"jneed": jsonNeed(r.expect[i+1])}
 	}
 	policy := "per_message"
 	evs = append(evs, Ev{"e": "Reset", "tid": p.ID, "raw": p.Raw != "",
@@ -772,6 +802,18 @@ func (r *readerRun) exec(sc *xport.ScriptConn, outp *[]Ev) (out []Ev) {
 			segs, rest, restOK := r.splitJoined(b, term)
 			out = append(out, Ev{"e": "JA", "tl": op.K, "n": len(b), "segs": segs, "rest": rest, "restOK": restOK,
 				"err": r.classify(err), "obs": r.takeObs()})
+		case "RJ":
+			// ReadJSON: NextReader + JSON decoder; the reader is never handed to the application
+			var v interface{}
+			var err error
+			measure(func() { err = c.ReadJSON(&v) })
+			rd = nil
+			acc = nil
+			cand := []int{}
+			if err == nil {
+				cand = r.jsonCand(v)
+			}
+			out = append(out, Ev{"e": "RJ", "ok": err == nil, "err": r.classify(err), "obs": r.takeObs(), "cand": cand})
 		case "SRD":
 			// SetReadDeadline is a pass-through: it must not change what the read API reports
 			err := c.SetReadDeadline(time.Time{})
@@ -868,4 +910,43 @@ func (r *readerRun) splitJoined(b, term []byte) (segs [][]int, rest int, restOK 
 		}
 	}
 	return
+}
+
+// jsonNeed: -1 if e does not begin with a JSON value; otherwise the number of
+// bytes a decoder has to see to know that the first value is complete
+// (len(e)+1 if only the end of the message terminates it).
+func jsonNeed(e []byte) int {
+	if e == nil {
+		return -1
+	}
+	dec := json.NewDecoder(bytes.NewReader(e))
+	var v interface{}
+	if err := dec.Decode(&v); err != nil {
+		return -1
+	}
+	off := int(dec.InputOffset())
+	i := 0
+	for i < len(e) && (e[i] == ' ' || e[i] == '\t' || e[i] == '\r' || e[i] == '\n') {
+		i++
+	}
+	if i < len(e) && (e[i] == '"' || e[i] == '[' || e[i] == '{') {
+		return off
+	}
+	return off + 1
+}
+
+// jsonCand lists the messages whose expected content decodes to v.
+func (r *readerRun) jsonCand(v interface{}) []int {
+	c := []int{}
+	for s, e := range r.expect {
+		if e == nil {
+			continue
+		}
+		var w interface{}
+		if err := json.NewDecoder(bytes.NewReader(e)).Decode(&w); err == nil && reflect.DeepEqual(v, w) {
+			c = append(c, s)
+		}
+	}
+	sort.Ints(c)
+	return c
 }
